@@ -275,7 +275,7 @@ theorem claimTok_prog (c : Ctx) (now l : Int) (fuel : Nat) (hs : Sil c l) (step 
     ((c'.tx = some (selfToken c.s.p.address) ∧
         c'.s.st = .claimToken (if step = .firstToken then .secondToken else .scan) ∧
         c'.s.gap = .doPoll c.s.p.address ∧ c'.s.ring = c.s.ring.claimToken ∧ c'.apps = c.apps ∧ c'.calls = c.calls) ∨
-     (c' = c ∧ ¬ Late c.s.p l now)) := by
+     (c' = c ∧ now ≤ l + (c.s.p.bits 33 : Nat))) := by
   unfold doClaimToken at h
   rw [hst] at h
   have key : ∀ f : ClaimStep, ((if (waitSyncPause c.s now).2 = true then Res.ok { c with s := (waitSyncPause c.s now).1 } else
@@ -285,14 +285,14 @@ theorem claimTok_prog (c : Ctx) (now l : Int) (fuel : Nat) (hs : Sil c l) (step 
       c'.s.p = c.s.p ∧ c'.s.online = true ∧
       ((c'.tx = some (selfToken c.s.p.address) ∧ c'.s.st = .claimToken f ∧
           c'.s.gap = .doPoll c.s.p.address ∧ c'.s.ring = c.s.ring.claimToken ∧ c'.apps = c.apps ∧ c'.calls = c.calls) ∨
-       (c' = c ∧ ¬ Late c.s.p l now)) := by
+       (c' = c ∧ now ≤ l + (c.s.p.bits 33 : Nat))) := by
     intro f h
     rw [waitSync_some _ _ _ hs.last] at h
     simp only at h
     by_cases hw : now ≤ l + (c.s.p.bits 33 : Nat)
     · rw [if_pos (by simpa using hw)] at h
       cases h
-      exact ⟨rfl, hs.on, Or.inr ⟨rfl, fun hl => hl.sync hw⟩⟩
+      exact ⟨rfl, hs.on, Or.inr ⟨rfl, hw⟩⟩
     · rw [if_neg (by simpa using hw)] at h
       rw [transmit_ok _ _ _ hs.tx] at h
       simp only [Res.bind] at h
@@ -316,13 +316,13 @@ theorem doClaimToken_prog (c : Ctx) (now l : Int) (hs : Sil c l) :
       obtain ⟨h1, h2, h3⟩ := claimTok_prog c now l 1 hs _ (Or.inl rfl) hst c' h
       rcases h3 with ⟨htx, -⟩ | ⟨rfl, hnl⟩
       · exact ⟨h1, h2, Or.inl (by rw [htx]; simp)⟩
-      · exact ⟨h1, h2, Or.inr ⟨hs, fun hl => absurd hl hnl⟩⟩
+      · exact ⟨h1, h2, Or.inr ⟨hs, fun hl => absurd hnl hl.sync⟩⟩
     | secondToken =>
       intro c' h
       obtain ⟨h1, h2, h3⟩ := claimTok_prog c now l 1 hs _ (Or.inr rfl) hst c' h
       rcases h3 with ⟨htx, -⟩ | ⟨rfl, hnl⟩
       · exact ⟨h1, h2, Or.inl (by rw [htx]; simp)⟩
-      · exact ⟨h1, h2, Or.inr ⟨hs, fun hl => absurd hl hnl⟩⟩
+      · exact ⟨h1, h2, Or.inr ⟨hs, fun hl => absurd hnl hl.sync⟩⟩
     | scan => exact claimScan_prog c now l 1 hs hst
     | scanAwait a =>
       intro c' h
@@ -382,7 +382,7 @@ theorem claimFirst_result (c : Ctx) (now l : Int) (hs : Sil c l) (c' : Ctx)
     c'.s.p = c.s.p ∧ c'.s.online = true ∧
     ((c'.tx = some (selfToken c.s.p.address) ∧ c'.s.st = .claimToken .secondToken ∧
         c'.s.gap = .doPoll c.s.p.address ∧ c'.s.ring = c.s.ring.claimToken ∧ c'.apps = c.apps ∧ c'.calls = c.calls) ∨
-     (Sil c' l ∧ ¬ Late c.s.p l now)) := by
+     (Sil c' l ∧ now ≤ l + (c.s.p.bits 33 : Nat))) := by
   have hs' : Sil { c with s := { c.s with st := .claimToken .firstToken } } l := ⟨hs.on, hs.tx, hs.rx, hs.last⟩
   obtain ⟨h1, h2, h3⟩ := claimTok_prog _ now l 1 hs' .firstToken (Or.inl rfl) rfl c' h
   refine ⟨h1, h2, ?_⟩
@@ -400,7 +400,7 @@ theorem doListenToken_prog (c : Ctx) (now l : Int) (hs : Sil c l) :
     · rw [lost_claim c now l hs (Or.inr ⟨_, _, hst⟩) hlost] at h
       simp only at h
       obtain ⟨h1, h2, h3⟩ := claimFirst_result c now l hs c' h
-      exact ⟨h1, h2, h3.imp (fun h => by rw [h.1]; simp) id⟩
+      exact ⟨h1, h2, h3.imp (fun h => by rw [h.1]; simp) (fun ⟨a, b⟩ => ⟨a, fun hl => hl.sync b⟩)⟩
     · rw [not_lost c now l hs hlost] at h
       have hnl : ¬ Late c.s.p l now := fun hl => hlost hl.lost
       simp only at h
@@ -442,7 +442,7 @@ theorem doActiveIdle_prog (c : Ctx) (now l : Int) (hs : Sil c l) :
     · rw [lost_claim c now l hs (Or.inl ⟨_, _, _, hst⟩) hlost] at h
       simp only at h
       obtain ⟨h1, h2, h3⟩ := claimFirst_result c now l hs c' h
-      exact ⟨h1, h2, h3.imp (fun h => by rw [h.1]; simp) id⟩
+      exact ⟨h1, h2, h3.imp (fun h => by rw [h.1]; simp) (fun ⟨a, b⟩ => ⟨a, fun hl => hl.sync b⟩)⟩
     · rw [not_lost c now l hs hlost] at h
       have hnl : ¬ Late c.s.p l now := fun hl => hlost hl.lost
       simp only at h
@@ -913,5 +913,192 @@ theorem pre_polls (p : Params) (l : Int) (rest : List Int) : ∀ (pre : List Int
     · right
       rw [hs'.rx]
       exact ih c'.s c'.apps hinv' hon' hs'.last (hp'.trans hp) hrest
+
+/-! ### Exact results for the three recovery mechanisms -/
+
+/-- A poll later than the stamp goes straight to the state handler. -/
+theorem pollInner_dispatch (c : Ctx) (now l : Int) (hs : Sil c l) (hinv : Inv c.s c.apps) (hno : c.s.st ≠ .offline)
+    (hlt : l < now) : pollInner c now false = dispatch c now := by
+  have hps : pollStart c = .ok c := by
+    unfold pollStart
+    cases hst : c.s.st with
+    | offline => exact absurd hst hno
+    | passiveIdle => exact absurd hst hinv.noPassive
+    | _ => rfl
+  unfold pollInner
+  rw [if_neg (by simp [hs.on]), hps]
+  simp only [Res.bind]
+  rw [if_neg (by simp [ongoing, hs.last]; omega)]
+  have : (upd c fun s => checkBusActivity s now c.rx.length) = c := by
+    simp only [upd, hs.rx, List.length_nil, checkBus_nil]
+    have hrx := hs.rx
+    cases c; simp only at hrx; subst hrx; rfl
+  rw [this]
+
+/-- Token-lost time-out reached in `ListenToken` / `ActiveIdle`: the poll is the first claim step. -/
+theorem idle_claims (c : Ctx) (now l : Int) (hs : Sil c l) (hidle : IdleLike c.s.st)
+    (hlost : (now - l).natAbs ≥ c.s.p.tokenLostTimeout) :
+    dispatch c now = doClaimToken { c with s := { c.s with st := .claimToken .firstToken } } now 2 := by
+  unfold dispatch
+  rcases hidle with ⟨a, b, d, hst⟩ | ⟨a, b, hst⟩
+  · rw [hst]
+    simp only
+    unfold doActiveIdle
+    rw [hst]
+    simp only
+    rw [lost_claim c now l hs (Or.inl ⟨_, _, _, hst⟩) hlost]
+  · rw [hst]
+    simp only
+    unfold doListenToken
+    rw [hst]
+    simp only
+    rw [lost_claim c now l hs (Or.inr ⟨_, _, hst⟩) hlost]
+
+/-- Slot expired in `CheckTokenPass` with nothing received, synchronisation pause over: the poll is
+`passTokenOn` from `PassToken(no gap, next attempt)` — after removing NS from the LAS at the third expiry. -/
+theorem check_expired (c : Ctx) (now l : Int) (hs : Sil c l) (att : Attempt) (hst : c.s.st = .checkTokenPass att)
+    (hsl : now > l + (c.s.p.slotTime : Nat)) (hsy : l + (c.s.p.bits 33 : Nat) < now) :
+    doCheckTokenPass c now =
+      match att with
+      | .first => passTokenOn { c with s := { c.s with st := .passToken false .second } } now .second
+      | .second => passTokenOn { c with s := { c.s with st := .passToken false .third } } now .third
+      | .third =>
+        match c.s.ring.removeStation c.s.ring.ns with
+        | none => .panic "remove_station index"
+        | some r => passTokenOn { c with s := { c.s with ring := r, st := .passToken false .first } } now .first := by
+  have pass : ∀ (s0 : Station) (a' : Attempt), s0.lastBusActivity = some l → s0.p = c.s.p →
+      doPassToken { c with s := { s0 with st := .passToken false a' } } now =
+        passTokenOn { c with s := { s0 with st := .passToken false a' } } now a' := by
+    intro s0 a' hl0 hp0
+    unfold doPassToken
+    simp only
+    rw [waitSync_some _ _ _ (by exact hl0)]
+    simp only
+    rw [if_neg (by simp only [decide_eq_true_eq]; rw [hp0]; omega)]
+    simp
+  unfold doCheckTokenPass
+  rw [hst]
+  simp only
+  rw [checkSlot_some _ _ _ hs.last]
+  simp only [decide_eq_true_eq]
+  rw [if_pos hsl]
+  cases att with
+  | first => simp only [tr, toPassToken, hst, Res.bind]; exact pass c.s _ hs.last rfl
+  | second => simp only [tr, toPassToken, hst, Res.bind]; exact pass c.s _ hs.last rfl
+  | third =>
+    simp only
+    cases hr : c.s.ring.removeStation c.s.ring.ns with
+    | none => simp only [Res.bind]
+    | some r =>
+      simp only [tr, toPassToken, upd, hst, Res.bind]
+      exact pass { c.s with ring := r } _ hs.last rfl
+
+theorem removeStation_inactive (r r' : TokenRing) (a : Nat) (h : r.removeStation a = some r') : r'.isActive a = false := by
+  unfold TokenRing.removeStation at h
+  split at h
+  · cases h
+  · cases h
+    rw [TokenRing.updateNextPrev_active]
+    simp [TokenRing.isActive]
+
+/-- Only `transmit_telegram` calls are recorded while the token is held. -/
+def OnlyTransmitCalls (extra : List AppCall) : Prop := ∀ x ∈ extra, ∃ i hp a, x = AppCall.transmit i hp a
+
+theorem appTransmit_calls (c : Ctx) (now : Int) (hp : Bool) (c' : Ctx) (b : Bool)
+    (h : appTransmit c now hp = (.ok c', b)) : ∃ extra, c'.calls = c.calls ++ extra ∧ OnlyTransmitCalls extra := by
+  have one : ∀ i a, OnlyTransmitCalls [AppCall.transmit i hp a] := by
+    intro i a x hx; simp at hx; exact ⟨i, hp, a, hx⟩
+  unfold appTransmit at h
+  simp only at h
+  split at h
+  · cases h
+  · split at h
+    · injection h with h1 h2; cases h1; exact ⟨_, rfl, one _ _⟩
+    · split at h
+      · cases h
+      · split at h
+        · split at h
+          · split at h
+            · injection h with h1 h2
+              obtain ⟨-, rfl⟩ := transmit_cases _ _ _ _ h1
+              exact ⟨_, rfl, one _ _⟩
+            · cases h
+          · cases h
+        · injection h with h1 h2
+          obtain ⟨-, rfl⟩ := transmit_cases _ _ _ _ h1
+          exact ⟨_, rfl, one _ _⟩
+
+theorem OnlyTransmitCalls.append {a b : List AppCall} (ha : OnlyTransmitCalls a) (hb : OnlyTransmitCalls b) :
+    OnlyTransmitCalls (a ++ b) := by
+  intro x hx
+  rcases List.mem_append.mp hx with h | h
+  · exact ha x h
+  · exact hb x h
+
+theorem appsTransmit_calls (now : Int) (hp : Bool) : ∀ (k : Nat) (c c' : Ctx) (b : Bool),
+    appsTransmit now hp k c = (.ok c', b) → ∃ extra, c'.calls = c.calls ++ extra ∧ OnlyTransmitCalls extra := by
+  intro k
+  induction k with
+  | zero =>
+    intro c c' b h
+    simp only [appsTransmit] at h
+    injection h with h1 h2; cases h1
+    exact ⟨[], by simp, fun x hx => by cases hx⟩
+  | succ k ih =>
+    intro c c' b h
+    simp only [appsTransmit] at h
+    rcases hat : appTransmit c now hp with ⟨r, b1⟩
+    rw [hat] at h
+    cases r with
+    | panic s => simp only at h; cases h
+    | ok c1 =>
+      obtain ⟨e1, he1, ho1⟩ := appTransmit_calls c now hp c1 b1 hat
+      cases b1 with
+      | true =>
+        simp only at h
+        injection h with h1 h2; cases h1
+        exact ⟨e1, he1, ho1⟩
+      | false =>
+        simp only at h
+        split at h
+        · split at h
+          · injection h with h1 h2; cases h1
+            exact ⟨e1, he1, ho1⟩
+          · obtain ⟨e2, he2, ho2⟩ := ih _ c' b h
+            exact ⟨e1 ++ e2, by rw [he2]; simp only [upd]; rw [he1, List.append_assoc], ho1.append ho2⟩
+        · cases h
+
+theorem useTokenGo_calls (c : Ctx) (now : Int) (d : UseData) (hp : Bool) (c' : Ctx) (h : useTokenGo c now d hp = .ok c') :
+    ∃ extra, c'.calls = c.calls ++ extra ∧ OnlyTransmitCalls extra := by
+  unfold useTokenGo at h
+  simp only at h
+  rcases hat : appsTransmit now hp (upd c fun s => { s with st := .useToken d true }).apps.length
+    (upd c fun s => { s with st := .useToken d true }) with ⟨r, b⟩
+  rw [hat] at h
+  cases r with
+  | panic s => simp only at h; cases h
+  | ok c1 =>
+    obtain ⟨e, he, ho⟩ := appsTransmit_calls now hp _ _ c1 b hat
+    cases b with
+    | true => simp only at h; cases h; exact ⟨e, he, ho⟩
+    | false =>
+      simp only at h
+      obtain ⟨s', -, rfl⟩ := tr_cases _ _ _ _ h
+      exact ⟨e, he, ho⟩
+
+theorem doUseToken_calls (c : Ctx) (now : Int) (c' : Ctx) (h : doUseToken c now = .ok c') :
+    ∃ extra, c'.calls = c.calls ++ extra ∧ OnlyTransmitCalls extra := by
+  unfold doUseToken at h
+  split at h
+  · simp only at h
+    split at h
+    · cases h; exact ⟨[], by simp, fun x hx => by cases hx⟩
+    · split at h
+      · exact useTokenGo_calls _ now _ _ c' h
+      · split at h
+        · exact useTokenGo_calls _ now _ _ c' h
+        · obtain ⟨s', -, rfl⟩ := tr_cases _ _ _ _ h
+          exact ⟨[], by simp, fun x hx => by cases hx⟩
+  · cases h
 
 end PV
